@@ -8,7 +8,10 @@ claims.json["_not_applicable"] or a generic "no check built yet" reason.
 import json, os, subprocess, sys
 
 V = os.path.dirname(os.path.dirname(os.path.abspath(__file__)))
-claims = json.load(open(os.path.join(V, "tools", "claims.json")))
+claims = {}
+for f in sorted(os.listdir(os.path.join(V, "tools", "claims"))):
+    if f.endswith(".json"):
+        claims[f[:-5]] = json.load(open(os.path.join(V, "tools", "claims", f)))
 props = [json.loads(l)["id"] for l in open(os.path.join(V, "properties.jsonl"))]
 try:
     impl = subprocess.check_output([os.path.join(V, "bin", "kafcheck"), "-list"], text=True).split()
@@ -41,7 +44,7 @@ for p in props:
 
 manifest = {
     "version": 1,
-    "setup_cmd": "./build.sh",
+    "setup_cmd": "./build.sh && bin/kafcheck warm",
     "hooks": {
         "guard": "verif",
         "enable": "none needed: static analysis reads /repo's source as it is; no hooks or instrumentation were added",
